@@ -61,7 +61,8 @@ type Rule struct {
 	// NeedSSA tells the driver to build SSA.
 	NeedSSA bool
 	Run     func(p *Prog) *RuleResult
-	// Archs beyond amd64 on which the rule is re-run in the thorough tier.
+	// Archs beyond amd64 on which the rule is re-run in the thorough tier. nil = arm64 and 386 (the pure-Go
+	// fallback kernels and the 32-bit build); an empty non-nil slice = amd64 only.
 	ThoroughArchs []string
 	// Canary: positive fixture that must fire (expected-zero rules); returns error text if it did not.
 	Canary func() error
